@@ -694,3 +694,37 @@ def expanded(ctx, mod: str, qual: str, depth: int = 3, keep_extra=()) -> FuncInf
         inl = inlined_info(idx, raw, depth, keep=keep)
         cache[key] = inl if getattr(inl.node, '_inlined_any', False) else raw
     return cache[key]
+
+
+def qualified_name_obligation(ctx, col: Collector, rule: str, cons: str, gf: FuncInfo) -> None:
+    """The qualifying helper writes "name" when the schema is the default one and "schema"."name" otherwise - decided per path on the abstract text the helper
+    returns (helpers it calls read in place), not on the shape of its code."""
+    from .. import strval
+    from ..inline import inlined_info
+    fx = inlined_info(ctx.idx, gf, 3)
+    mp = [a.arg for a in fx.node.args.args][0]
+    verdict, why, npaths = 'ok', '', 0
+    for lits_, sk, tests_, exprs_ in strval.skeleton_paths(fx.node, 1, set(), {}):
+        npaths += 1
+        shown = strval.show_labelled(sk)
+        is_default = any(l[0] == 'eq' and f'{mp}.schema' in l[1:] and any(str(x).startswith(("'", '"')) for x in l[1:]) for l in lits_)
+        not_default = any(l[0] == 'not' and isinstance(l[1], tuple) and l[1][0] == 'eq' and f'{mp}.schema' in l[1][1:] for l in lits_)
+        want_short = f'"◦⟨{mp}.name⟩"'
+        want_long = f'"◦⟨{mp}.schema⟩"."◦⟨{mp}.name⟩"'
+        if '?' in shown or (not is_default and not not_default):
+            if shown == want_long:
+                continue        # always fully qualified on this path: reads back the same
+            if verdict == 'ok':
+                verdict, why = 'unk', f'a path returns `{shown}` under {lits_}; cannot relate it to the schema test'
+        elif is_default and shown not in (want_short, want_long):
+            verdict, why = 'bad', f'for the default schema the helper returns `{shown}`, expected `{want_short}`'
+        elif not_default and shown != want_long:
+            verdict, why = 'bad', f'for a schema other than the default one the helper returns `{shown}`, expected `{want_long}`: the schema is lost, misplaced or not quoted'
+    if npaths == 0:
+        verdict, why = 'unk', 'no returning path could be evaluated'
+    if verdict == 'ok':
+        col.ok(rule, cons, f'the helper writes "name" for the default schema and "schema"."name" otherwise ({npaths} paths)', node=gf.node, file=gf.file)
+    elif verdict == 'bad':
+        col.bad(rule, cons, f'{gf.qualname} does not write "schema"."name" for every schema other than the default one (or does not quote both parts): {why}', node=gf.node, file=gf.file)
+    else:
+        col.unk(rule, cons, f'{gf.qualname}: {why}', node=gf.node, file=gf.file)
